@@ -17,6 +17,16 @@ package memberlist
 //@   ensures  others: forall k string :: k != key ==> (in(k, m.store) <==> in(k, old(m).store)) && (in(k, m.store) ==> same(m.store[k], old(m).store[k]))
 //@   ensures  failed: err != nil ==> newVersion == 0
 //@   ensures  !isnil(m.store)
+//@   # WHEN an update is stored (and therefore re-gossiped and announced, C06): a merge that reports a change with content is
+//@   # stored unless stripping expired tombstones empties the change; a merge that reports no content is never stored,
+//@   # except for a flip of the key's deletion flag. (szN: number of names in the change at the two places that inspect it.)
+//@   ghost var sz1 int = 0 - 1
+//@   ghost var sz2 int = 0 - 1
+//@   at after@memberlist.Mergeable.MergeContent#0: sz1 := len($r0)
+//@   at after@memberlist.Mergeable.MergeContent#1: sz2 := len($r0)
+//@   at exit: assert stored_when_changed: err == nil && sz1 > 0 && sz2 != 0 && get(old(m).store, key).Version < 18446744073709551615 ==> newVersion > 0
+//@   at exit: assert nothing_stored_for_nothing: newVersion > 0 && sz1 <= 0 ==> newDeleted != get(old(m).store, key).Deleted
+//@   at exit: assert stripped_to_nothing: sz2 == 0 ==> newVersion == 0
 //@
 //@ func ValueDesc.Clone
 //@   property C04 C07
@@ -116,6 +126,9 @@ package memberlist
 //@   ensures  stored: r5 == nil && r1 != 0 ==> in(key, m.store) && m.store[key].Version == get(old(m).store, key).Version + 1 && r1 == m.store[key].Version
 //@   ensures  others: forall k string :: k != key ==> (in(k, m.store) <==> in(k, old(m).store)) && (in(k, m.store) ==> same(m.store[k], old(m).store[k]))
 //@   ensures  !isnil(m.store)
+//@   # the value returned by the caller's function stays reachable by the caller: the store may keep only a copy of it
+//@   # (a change the caller makes to its own object later must not reach the store without a compare-and-swap)
+//@   at before@memberlist.KV.mergeValueForKey: assert caller_owned_value_is_cloned: $a2
 //@
 //@ # the loop: a call that reports failure has left the stored value unchanged; success is reported right after the
 //@ # attempt that stored (or declined), with nothing in between that could turn it into an error
